@@ -9,14 +9,17 @@ LEVEL = 'proof'
 EXPLANATION = ('Lean theorems over symbolic S (every position of a resolution at once), every face/segment, r = 0..29: serialize total, '
                'range [1,2^64), get_resolution/deserialize recover the cell, injectivity, re-encoding of every valid id, rejection of unfit positions, '
                'enumeration count = get_num_cells. The statement at MAX_RESOLUTION=30 is proved FALSE in the model (known finding). '
-               'Tie: constants regenerated from /repo and re-decided; model functions compared with the implementation on structured ops.')
+               'Tie: constants regenerated from /repo and re-decided; model functions compared with the implementation on structured ops.'
+               " SOURCE-LEVEL TIE (every run): the functions of this property's cone are translated from /repo's current source by tools/py2lean.py into Lean definitions (A5/Gen/Src.lean); bridge theorems prove, for every input (no sampling), that the translated definitions compute exactly what the hand-written model computes, and the headline theorems are restated about the translated source (`*_of_source`). A source change changes the generated definitions and the kernel re-checks the bridges; a construct outside the translated subset (decorators, global state, …) is reported as a broken tie.")
 RULE = ('ops: every (origin, segment, resolution -2..32) x structured S patterns (0,1,max,max+1,-1,alternating,0333..,1000..,single digit,random), '
         'all ids of low levels, malformed ids (top6>=60, stray low bits, even marker, >=2^64); distinct = distinct op lines; '
         'search: round-trip/range/injectivity/rejection/enumeration on the real code, exhaustive for low levels')
 TRUSTED_BASE = ['Lean 4.33 kernel', 'axioms: propext, Classical.choice, Quot.sound only', 'tools/gen_tables.py (constants by value)',
-                'line-protocol correspondence harness (sampled agreement of the hand-written model with the implementation on infinite domains)',
-                'CPython int semantics (<<, >>, &, |, //, %) as modelled in A5/Model/Basic.lean']
-ASSUMPTIONS = ['the sampled agreement between A5/Model/Serialization.lean and a5/core/serialization.py extends to all inputs',
+                'line-protocol correspondence harness (second, independent tie: sampled agreement of the hand-written model with the implementation)',
+                'CPython int semantics (<<, >>, &, |, //, %) as modelled in A5/Model/Basic.lean',
+                'tools/py2lean.py (syntax-directed translation of the Python source into A5/Gen/Src.lean, regenerated every run) and the operator semantics of A5/Model/PySem.lean — both exercised every run by executing the translated source (lean/SrcMain.lean) against the implementation on the same ops, negative ints included',
+                'kernel-checked bridge theorems (A5/Proofs/SrcBridge*.lean, A5/Props/SrcTie/*.lean): translated source = hand-written model for EVERY non-negative id / every list of ids / every int argument']
+ASSUMPTIONS = ['the translator tools/py2lean.py and the operator semantics A5/Model/PySem.lean represent CPython faithfully on the integer core (validated every run by executing the translated source against the implementation)',
                'an A5Cell carries one of the 12 Origin objects of a5.core.origin.origins; ids are non-negative ints']
 
 def gen_ops(tier, rng):
@@ -162,7 +165,7 @@ def replay(f):
     return bool(fails)
 
 LEVEL_TEXT = ('machine-checked proof (Lean 4 kernel) of the codec laws for every face, segment, resolution 0..29 and a symbolic position S; '
-              'the clause at resolution 30 is proved false and reported as a known finding; the model is tied to the source by regenerated constants and a differential correspondence')
-LEVEL_NOTE = ('trusted: Lean kernel + standard axioms; gen_tables.py; that the sampled model/implementation agreement (structured ops incl. malformed ids) extends to all inputs; CPython int semantics as modelled')
-TECHNIQUE = 'Lean 4 proof over a hand-written model + generated-constant re-decision + line-protocol differential correspondence'
+              'the clause at resolution 30 is proved false and reported as a known finding; the model is tied to the source by per-run translation of the source with kernel-checked bridge theorems (every id, every record), regenerated constants and a differential correspondence')
+LEVEL_NOTE = 'trusted: Lean kernel + standard axioms; gen_tables.py; py2lean.py + PySem.lean (translator and Python operator semantics, executed against the implementation every run); CPython int semantics as modelled there'
+TECHNIQUE = 'Lean 4 proof over a hand-written model + generated-constant re-decision + line-protocol differential correspondence + source translated to Lean each run (py2lean) with bridge theorems Src = Model for all inputs'
 DESIGN_REF = 'DESIGN.md §3 C05'
